@@ -65,6 +65,14 @@ def _loc(location, filename):
     return {'loc': location, 'file': filename}
 
 
+def _loc_of(name):
+    # builtins, runtime modules and their members have no source location
+    try:
+        return _loc(name.declared_at, name.filename)
+    except AttributeError:
+        return None
+
+
 def location(project, source, position, filename=None, debug=False):
     source = Source(source, filename, position)
 
@@ -100,9 +108,13 @@ def location(project, source, position, filename=None, debug=False):
     locs = []
     for r in result:
         if isinstance(r, list):
-            locs.append([_loc(n.declared_at, n.filename) for n in r])
+            alts = [it for it in (_loc_of(n) for n in r) if it]
+            if alts:
+                locs.append(alts)
         else:
-            locs.append(_loc(r.declared_at, r.filename))
+            loc = _loc_of(r)
+            if loc:
+                locs.append(loc)
 
     return locs
 
